@@ -147,6 +147,12 @@ Theorem percall_kernels_keep_no_state : percall_static_written = [].
 Proof. exact percall_kernels_stateless. Qed.
 Print Assumptions percall_kernels_keep_no_state.
 
+(* ... and no kernel source file holds state that outlives a call (mutable file-scope variables, static locals):
+   nothing a call computes can depend on what the process computed before *)
+Theorem kernel_sources_keep_no_state_between_calls : kernel_files_static_state = [].
+Proof. exact kernel_files_stateless. Qed.
+Print Assumptions kernel_sources_keep_no_state_between_calls.
+
 (* a loop that stops advancing a pointer it reads through, or reads a buffer before refilling it, is rejected *)
 Example undisciplined_loops_rejected :
   (fdisc [FSet 1 (FVia 0 0); FOutVia 1 (FCell 1); FAdv 1] = false) /\
